@@ -121,7 +121,7 @@ def rand_card(rng, p=0.3):
 def gen_prop(rng, name, hostile=0.5, tuples=True, cards=True, falsy=True):
     r = rng.random()
     if tuples and r < 0.1:
-        dtype = "%d-tuple" % rng.choice([1, 2, 3])
+        dtype = "%d-tuple" % rng.choice([1, 2, 3, 2, 3, 10, 12])      # (two digit arities as well)
     else:
         dtype = rng.choice(SCALAR_DTYPES)
     n = rng.choice([0, 1, 1, 1, 2, 3, 4])
